@@ -69,7 +69,7 @@ pub enum Mode {
     Rand,
 }
 
-const STRS: &[&str] = &["", "a", "hello world", "é日本", "q\"uo\\te", "line\nbreak", "x/y", "\u{1F600}"];
+const STRS: &[&str] = &["", "a", "0", "1", "-1", "true", "null", "00", "hello world", "é日本", "q\"uo\\te", "line\nbreak", "x/y", "\u{1F600}"];
 const USERS: &[&str] = &["@alice:example.org", "@bob:matrix.org", "@carol:h.example:8448", "@_irc_d:x.y"];
 const EVENTS: &[&str] = &["$ev1:example.org", "$Rqnc-F-dvnEYJTyHq_iKxU2bZ1CI92-kuZq3a5lr5Zg", "$143273582443PhrSn:example.org"];
 const ROOMS: &[&str] = &["!room:example.org", "!jEsUZKDJdhlrceRyVU:example.org", "!abc:h.example:8448"];
@@ -293,7 +293,7 @@ fn sdp_stream_metadata() -> S {
 }
 
 fn call(mut fs: Vec<F>) -> S {
-    let mut v1 = vec![r("call_id", S::Enum(&["12345", "c-1"])), r("party_id", S::Enum(&["67890", "p"])), r("version", S::Const("1"))];
+    let mut v1 = vec![r("call_id", S::Enum(&["12345", "c-1"])), r("party_id", S::Enum(&["67890", "p"])), r("version", S::OneOf(vec![S::Const("1"), S::Const("1"), S::ConstInt(0), S::Enum(&["0", "2", "00", "1.1", "org.example.voip", ""])]))];
     v1.append(&mut fs);
     ob(v1)
 }
